@@ -89,8 +89,8 @@ LatShift(c, idx) ==
 (* Locate: chain of cell numbers from the innermost filler to the level-0  *)
 (* container; <<>> = in no cell; <<-1>> = on a surface (point to be        *)
 (* skipped); <<-2>> = deck not a partition there (generator defect).       *)
-(* A lattice element contributes the pair marker -(1000+pos) so that the   *)
-(* provenance of lattice volumes can be compared.                          *)
+(* A lattice element appears as the marker -(1000*cell + position in the   *)
+(* fill array) so that the provenance of lattice volumes can be compared.  *)
 (***************************************************************************)
 RECURSIVE Locate(_, _, _, _)
 Locate(D, u, P, fuel) ==
@@ -109,14 +109,15 @@ Locate(D, u, P, fuel) ==
        ELSE LET idx == CHOOSE x \in cand : TRUE
                 uu == c.lunivs[PosInArray(c, idx)]
                 P0 == Sub(P, LatShift(c, idx))
+                mark == -(1000 * c.n + PosInArray(c, idx))     \* lattice element of cell c.n
             IN IF uu = 0 THEN <<>>
-               ELSE IF uu = c.u THEN <<c.n>>
+               ELSE IF uu = c.u THEN <<mark>>
                ELSE LET P1 == IF c.hasftr THEN ToAux(c.ftr, P0)
                               ELSE IF c.hastrcl THEN ToAux(c.trcl, P0) ELSE P0
                         inner == Locate(D, uu, P1, fuel - 1)
                     IN IF inner = <<>> THEN <<>>
-                       ELSE IF inner[1] < 0 THEN inner
-                       ELSE Append(inner, c.n)
+                       ELSE IF inner[1] \in {-1, -2} THEN inner
+                       ELSE Append(inner, mark)
   ELSE
     LET hit == { c \in cs : InCell(D, c, P) }
         edge == \E c \in cs : OnCell(D, c, P)
@@ -129,7 +130,7 @@ Locate(D, u, P, fuel) ==
                               ELSE IF c.hastrcl THEN ToAux(c.trcl, P) ELSE P
                         inner == Locate(D, c.fill, P1, fuel - 1)
                     IN IF inner = <<>> THEN <<>>
-                       ELSE IF inner[1] < 0 THEN inner
+                       ELSE IF inner[1] \in {-1, -2} THEN inner
                        ELSE Append(inner, c.n)
 
 Chain(D, P) == Locate(D, 0, P, 6)
@@ -137,5 +138,11 @@ IsSkip(ch) == ch # <<>> /\ ch[1] = -1
 IsBadDeck(ch) == ch # <<>> /\ ch[1] = -2
 Level0(ch) == ch[Len(ch)]
 (* importance of a cell: the deck records the effective (max over particles) value *)
-Live(D, ch) == ch # <<>> /\ ch[1] > 0 /\ CellOf(D, Level0(ch)).imp # 0
+IsMark(x) == x < -1000
+MarkCell(x) == (-x) \div 1000
+Live(D, ch) == ch # <<>> /\ ch[1] \notin {-1, -2} /\ CellOf(D, Level0(ch)).imp # 0
+(* the lowest-level cell whose material fills the point (a lattice element filled with its own universe *)
+(* has the lattice cell's material)                                                                    *)
+InnerCell(D, ch) == CellOf(D, IF IsMark(ch[1]) THEN MarkCell(ch[1]) ELSE ch[1])
+MaxCellN(D) == CHOOSE m \in { D.cells[i].n : i \in 1..Len(D.cells) } : \A i \in 1..Len(D.cells) : D.cells[i].n <= m
 =============================================================================
